@@ -373,6 +373,10 @@ func lifeEngine(rng *Rng, n int, out *Out, args map[string]string) {
 	}
 	defer os.RemoveAll(dir)
 	for i := 0; i < n; i++ {
+		if out.oracle >= 12 {
+			out.Note("stopping after %d oracle reports: the remaining cases would only repeat them", out.oracle)
+			break
+		}
 		r := rng.Fork()
 		d, err := startDriver(bin)
 		if err != nil {
